@@ -82,6 +82,13 @@ def run(rep, tier, seed, tr_errors):
     specials.append(Circuit(Series([Resistor(), Parallel([Capacitor()]), Resistor()])))
     for i in range(n):
         c = specials[i] if i < len(specials) else cdc.rand_circuit(ctx, rng, depth=rng.randint(0, 3))
+        if rng.random() < 0.4:
+            # a label that turns one parameter's variable name into another's key (Y + "_B" = Y_B)
+            for el in c.get_elements(recursive=True):
+                keys = list(el.get_values().keys())
+                sfx = [k2[len(k1) + 1:] for k1 in keys for k2 in keys if k2.startswith(k1 + "_")]
+                if sfx and rng.random() < 0.7:
+                    el.set_label(rng.choice(sfx))
         uids = {}
         t = C16.build_lit(c._elements, uids, ctx)
         simulated = True
@@ -111,6 +118,20 @@ def run(rep, tier, seed, tr_errors):
                     # one variable per parameter (a parameter of an element in an unused position may cancel; at most)
                     if len([s for s in free if s != "f"]) > n_params:
                         probs.append("more symbolic variables (%d) than parameters (%d)" % (len(free) - 1, n_params))
+                # element by element: renaming the parameters to key_<label|id> neither merges nor loses a variable
+                from pyimpspec.circuit.base import Container
+                import copy as _copy
+                for j, (_, el) in enumerate(uids.values()):
+                    if isinstance(el, Container):
+                        continue
+                    plain = _copy.deepcopy(el)
+                    plain.set_label("")
+                    base = set(str(s_) for s_ in plain.to_sympy().free_symbols) - {"f"}
+                    want = set("%s_%s" % (k, el.get_label() if el.get_label() else j) for k in base)
+                    got = set(str(s_) for s_ in el.to_sympy(identifier=j).free_symbols) - {"f"}
+                    if got != want:
+                        probs.append("element %s: variables %s instead of %s" % (el.to_string(), sorted(got), sorted(want)))
+                        break
                 e1 = with_timeout(60, lambda: c.to_sympy(substitute=True))
                 if not set(str(s) for s in e1.free_symbols) <= {"f"}:
                     probs.append("substituted expression still has variables %s" % sorted(map(str, e1.free_symbols)))
